@@ -3,9 +3,8 @@ package harness
 // C18 (Go structs, pointers, typed slices) and C19 (the jpgo command).
 
 import (
-	"time"
-	"context"
 	"bytes"
+	"context"
 	"encoding/json"
 	"fmt"
 	"os"
@@ -15,6 +14,7 @@ import (
 	"strconv"
 	"strings"
 	"testing"
+	"time"
 
 	jp "github.com/jmespath/go-jmespath"
 	"pgregory.net/rapid"
@@ -406,7 +406,7 @@ type hwDoc struct {
 }
 
 var hwExprs = []string{"!@", "@ || Name", "@ && Name", "Items[?@]", "Items[?!@]", "Items[?@].Name", "[Ptr, NilPtr][?@]", "Ptr && Name", "!Ptr", "Ptr || Name", "!Zero", "Zero && Name", "Zero || Name", "[Zero][?@]", "[Zero, NilPtr, Ptr][?@].Name", "!ZeroV", "ZeroV && Name", "[ZeroV][?@]", "!Inner", "Items[?@ && Name]", "length(PSlice)", "reverse(PSlice)", "PSlice[0]", "PSlice[*]", "PSlice[1:]", "PSlice[]", "PSlice[?@]", "contains(PSlice, 'a')", "map(&@, PSlice)", "sort_by(PSlice, &@)", "max_by(PSlice, &@)", "min_by(PSlice, &@)", "sort(PSlice)", "join(',', PSlice)",
-	"to_array(PSlice)", "to_string(PSlice)", "type(PSlice)", "not_null(PSlice)", "PSlice == PSlice", "PSlice || Name", "length(PNil)", "reverse(PNil)", "PNil[0]", "PNil[*]", "contains(PNil, 'a')", "map(&@, PNil)", "type(PNil)", "merge(@, {a: PSlice})", "keys(PSlice)", "values(PSlice)", "max(PSlice)", "sum(PSlice)","\"ǆep\"", "\"Ǆep\"", "\"ǅep\"", "\"ანი\"", "\"Ანი\"", "[\"ǆep\", \"ანი\"]", "Items[*].\"ǆep\"", "length(\"ანი\")", "_x", "lower", "Lower", "\"ünï\"", "\"Ünï\"", "Items[*].\"ünï\"", "\"ωmega\"", "@.\"Ωmega\"", "[\"ünï\", \"ωmega\"]", "{a: \"ünï\"}", "\"ünï\" || Name", "length(\"ünï\")", "Label", "label", "hwEmbedded", "HwEmbedded.Label", "NilPtr.[Name]", "NilPtr.{a: Name}",
+	"to_array(PSlice)", "to_string(PSlice)", "type(PSlice)", "not_null(PSlice)", "PSlice == PSlice", "PSlice || Name", "length(PNil)", "reverse(PNil)", "PNil[0]", "PNil[*]", "contains(PNil, 'a')", "map(&@, PNil)", "type(PNil)", "merge(@, {a: PSlice})", "keys(PSlice)", "values(PSlice)", "max(PSlice)", "sum(PSlice)", "\"ǆep\"", "\"Ǆep\"", "\"ǅep\"", "\"ანი\"", "\"Ანი\"", "[\"ǆep\", \"ანი\"]", "Items[*].\"ǆep\"", "length(\"ანი\")", "_x", "lower", "Lower", "\"ünï\"", "\"Ünï\"", "Items[*].\"ünï\"", "\"ωmega\"", "@.\"Ωmega\"", "[\"ünï\", \"ωmega\"]", "{a: \"ünï\"}", "\"ünï\" || Name", "length(\"ünï\")", "Label", "label", "hwEmbedded", "HwEmbedded.Label", "NilPtr.[Name]", "NilPtr.{a: Name}",
 	"NilPtr || Name", "NilPtr && Name", "!NilPtr", "Items[*].Name", "Items[?Name].Tags[]", "Items[].Tags", "Items[0]", "Items[1]", "Items[1].[Name]", "Items[*].[Name]", "[Ptr, NilPtr]",
 	"reverse(Nums)", "reverse(Strs)", "contains(Strs, 'a')", "contains(Nums, `1`)", "map(&@, Nums)", "map(&Name, Items)", "sort_by(Items, &Name)", "max_by(Items, &Name)", "min_by(Items, &Name)",
 	"sort(Strs)", "sort(Nums)", "sum(Nums)", "avg(Nums)", "max(Nums)", "min(Strs)", "join(',', Strs)", "length(Items)", "length(Strs)", "length(Name)", "length(@)", "length(Inner)", "keys(@)", "values(@)",
